@@ -7,6 +7,7 @@
    never a panic - the latter uses the DP's panic-freedom, Proofs/DPFacts.v). *)
 From Coq Require Import NArith List Bool.
 From NV Require Import Model.Matcher Spec.Matching Spec.Statements Proofs.C01Facts Proofs.DPFacts.
+From NV Require Proofs.K1Facts.
 Import ListNotations.
 Local Open Scope N_scope.
 
@@ -80,3 +81,14 @@ Print Assumptions C01_fuzzy_decision.
 Print Assumptions C01_repr_indep.
 Print Assumptions C01_entry_points_agree.
 Print Assumptions C01_K1_refuted.
+
+(* Known finding K1 characterised exactly: inside the known class (byte haystack, code-point needle) EVERY algorithm
+   answers NoMatch for every non-empty needle, whatever the configuration and the content - the hypothesis
+   `~ known_K1` of the theorems above excludes one uniform behaviour, not an unexamined region (no panic, no wrong
+   match, no wrong score can hide there); the empty needle matches with score 0 in every representation. *)
+Theorem C01_K1_characterised : forall cfg a hs ns, known_K1 hs ns -> cs ns <> [] -> run cfg a hs ns = NoMatch.
+Proof. exact K1Facts.K1_all_nomatch. Qed.
+Theorem C01_empty_needle : forall cfg a hs ns, cs ns = [] -> run cfg a hs ns = Match 0 [].
+Proof. exact K1Facts.K1_empty_needle. Qed.
+Print Assumptions C01_K1_characterised.
+Print Assumptions C01_empty_needle.
